@@ -175,11 +175,11 @@ pub fn gen(seed: u64, n: usize, tier: &str) -> Vec<Case> {
         }
     }
     // (2) saves racing with a writer on one key and one sorted set: regression soak for the repaired
-    // classes value-ttl-tear (880a648) and zset-len-tear (e63a0b6); thorough tier only
-    if thorough {
+    // classes value-ttl-tear (880a648) and zset-len-tear (e63a0b6); a short soak in the quick tier, a long one in the thorough tier
+    {
         let mut ops = vec![];
         small_dataset(&mut r, &mut ops, false);
-        ops.push(opv("TEARSTRESS", vec![i(if thorough { 3000 } else { 400 })]));
+        ops.push(opv("TEARSTRESS", vec![i(if thorough { 40000 } else { 2500 })]));
         ops.push(op_t("DUMP"));
         cases.push(Case { id: "tear-0".into(), ops, outs: vec![] });
     }
@@ -227,6 +227,9 @@ pub fn judge(c: &Case, outs: &[Vec<Tok>]) -> Vec<String> {
             b"TEARSTRESS" => {
                 if op.len() >= 5 && tok_int(&op[3]) > 0 {
                     fails.push(format!("FAIL case={} op={} {} of {} snapshots taken while a client flipped the key between (old, no TTL) and (new, TTL) hold a (value, TTL) pair the key never had", c.id, k, tok_int(&op[3]), tok_int(&op[4])));
+                }
+                if op.len() >= 7 && tok_int(&op[6]) > 0 {
+                    fails.push(format!("FAIL case={} op={} {} snapshots taken while a client changed a sorted set's members and its time to live hold members beside a TTL the key never had with them (the shared set was read later than its TTL)", c.id, k, tok_int(&op[6])));
                 }
                 if op.len() >= 6 && tok_int(&op[5]) > 0 {
                     fails.push(format!("FAIL case={} op={} {} snapshots taken while a client added/removed a sorted-set member do not load as written (member count written before the items are read)", c.id, k, tok_int(&op[5])));
